@@ -11,7 +11,7 @@
 (* Coverage of this transcription: the characters in `Modelled`.  Rules whose condition needs *)
 (* a neighbour outside `Modelled` are not transcribed yet (named deviation): model-checking   *)
 (* alphabets must be subsets of `Modelled`.                                                   *)
-EXTENDS Lattice, Chars
+EXTENDS Lattice, Chars, UnicodeGlyphs
 
 cSP == 32  cDASH == 45  cTILDE == 126  cBAR == 124  cCOLON == 58  cBANG == 33
 cPLUS == 43  cDOT == 46  cAPOS == 39  cCOMMA == 44  cBQUOTE == 96  cUNDER == 95  cEQ == 61
@@ -19,7 +19,7 @@ cSLASH == 47  cBSLASH == 92  cLPAR == 40  cRPAR == 41
 cGT == 62  cLT == 60  cCARET == 94  cv == 118  cV == 86  cSTAR == 42  co == 111  cO == 79  cX == 88
 
 Modelled == {cSP, cDASH, cTILDE, cBAR, cCOLON, cBANG, cPLUS, cDOT, cAPOS, cCOMMA, cBQUOTE, cUNDER, cEQ,
-             cSLASH, cBSLASH, cLPAR, cRPAR, cGT, cLT, cCARET, cv, cV, cSTAR, co, cO, cX}
+             cSLASH, cBSLASH, cLPAR, cRPAR, cGT, cLT, cCARET, cv, cV, cSTAR, co, cO, cX} \cup UnicodeChars
 
 G(gx, gy) == <<gx * 2, gy * 4>>
 pa == G(0,0) pb == G(1,0) pc == G(2,0) pd == G(3,0) pe == G(4,0)
@@ -81,6 +81,7 @@ Sig(ch) ==
                          <<WEAK, <<Line(pa, py), Line(pu, pe)>> >> >>
     [] ch = cO     -> << <<MEDIUM, <<Circ(pm, 4, FALSE)>> >>, <<MEDIUM, <<Line(pk, po)>> >>, <<WEAK, <<Line(pc, pw)>> >>,
                          <<WEAK, <<Line(pa, py), Line(pu, pe)>> >> >>
+    [] ch \in UnicodeChars -> << <<STRONG, UniFrags(ch)>> >>
     [] OTHER -> <<>>
 
 \* Property::arcs_to: some signature arc runs from a to b in that direction (whatever its radius)
@@ -225,6 +226,7 @@ Rules(ch, N) ==
             <<N.r = cDOT, <<Poly(<<pj, pk, pt>>)>> >>,
             <<N.r = cAPOS, <<Poly(<<pj, pk, pt>>)>> >>,
             <<N.r = cLT, <<Poly(<<pj, pk, pt>>)>> >> >>
+    [] ch \in UnicodeChars -> << <<TRUE, UniFrags(ch)>> >>
     [] OTHER -> <<>>
 
 \* every fragment any rule of ch can draw (for C05's stroke envelope)
